@@ -745,6 +745,7 @@ func ruleSecretWhole(c *Checker) {
 				"the passphrase is not stretched exactly when the XX pattern is run (guarded by pattern name: "+fmt.Sprint(byPattern)+", other condition: "+other+"): a machine can run XX with an empty secret, which masks the ephemeral key with nothing")
 		}
 	}
+	rulePatternSource(c, "HSK-SIB")
 	// the handshake state keeps exactly what it was given
 	if nhs := mboxFunc(c, "mailbox.newHandshakeState"); nhs != nil {
 		f := w.Field("mailbox.handshakeState.passphraseEntropy")
@@ -1374,6 +1375,7 @@ func runC04(c *Checker) {
 		return (bo.Op == token.GEQ && f.Val && k == v2) || (bo.Op == token.LSS && !f.Val && k == v2) || (bo.Op == token.GTR && f.Val && k == v2-1)
 	}, "SetRemote(remoteStatic) iff version >= HandshakeVersion2, after split, error checked")
 	rulePublishOrder(c, "PUBLISH")
+	ruleConnDataSetters(c, "PUBLISH", true)
 	pub("SetAuthData", fRP, func(f Fact) bool { return f.Val && isLoadOfField(f.Cond, fInit) },
 		"SetAuthData(receivedPayload) iff initiator, after split, error checked")
 	c.floor("PUBLISH", 3)
@@ -1788,4 +1790,142 @@ func otherSucc(f Fact, b *ssa.BasicBlock) *ssa.BasicBlock {
 		}
 	}
 	return b
+}
+
+// rulePatternSource: the pattern a handshake machine runs is the one the connection data
+// prescribes - KK exactly when a remote static key is stored, XX otherwise - at every place a
+// machine is configured. (A paired responder that can be made to run XX again accepts anyone who
+// knows the passphrase; a side that runs another pattern than its SID says never meets its peer.)
+func rulePatternSource(c *Checker, rule string) {
+	w := c.w
+	fCfgPat := w.Field("mailbox.BrontideMachineConfig.HandshakePattern")
+	fCfgCD := w.Field("mailbox.BrontideMachineConfig.ConnData")
+	fRK := w.Field("mailbox.ConnData.remoteKey")
+	hp := mboxFunc(c, "(*mailbox.ConnData).HandshakePattern")
+	if fCfgPat == nil || fCfgCD == nil || fRK == nil || hp == nil {
+		c.anchorFail("BrontideMachineConfig.HandshakePattern / ConnData / ConnData.remoteKey")
+		return
+	}
+	isPatternCall := func(v ssa.Value) (ssa.Value, bool) {
+		call, ok := unwrapLoadAlloc(v).(*ssa.Call)
+		if !ok {
+			return nil, false
+		}
+		cc := call.Common()
+		if cc.IsInvoke() && cc.Method.Name() == "HandshakePattern" {
+			return cc.Value, true
+		}
+		if cc.StaticCallee() == hp {
+			return cc.Args[0], true
+		}
+		return nil, false
+	}
+	n := 0
+	for _, st := range w.Stores(fCfgPat) {
+		if strings.HasSuffix(w.Fset.Position(instrPos(st)).Filename, "_test.go") {
+			continue
+		}
+		n++
+		key := fnName(st.Parent()) + "|machine pattern = connData.HandshakePattern()"
+		recv, okk := isPatternCall(st.Val)
+		why := "the pattern is " + w.canonFB(st.Val)
+		if !okk {
+			// one level of helper: every return of the helper is such a call
+			if call, ok := unwrapLoadAlloc(st.Val).(*ssa.Call); ok {
+				if sc := call.Common().StaticCallee(); sc != nil && sc.Pkg == st.Parent().Pkg && len(sc.Blocks) > 0 {
+					all, any := true, false
+					allInstrs(sc, func(in ssa.Instruction) {
+						ret, isRet := in.(*ssa.Return)
+						if !isRet || ret.Block().Comment == "recover" {
+							return
+						}
+						for _, v := range expandValues(ret.Results[0]) {
+							if _, ok := isPatternCall(v); ok {
+								any = true
+							} else {
+								all = false
+								why = "helper " + fnName(sc) + " can return " + w.canonFB(v)
+							}
+						}
+					})
+					okk = all && any
+					recv = nil
+				}
+			}
+		}
+		// the same connection data that the machine gets
+		if okk && recv != nil {
+			fa, _ := st.Addr.(*ssa.FieldAddr)
+			same := false
+			for _, s2 := range w.Stores(fCfgCD) {
+				fa2, _ := s2.Addr.(*ssa.FieldAddr)
+				v2 := s2.Val
+				if mi, ok := v2.(*ssa.MakeInterface); ok {
+					v2 = mi.X
+				}
+				if fa != nil && fa2 != nil && fa.X == fa2.X && w.canonFB(v2) == w.canonFB(recv) {
+					same = true
+				}
+			}
+			if !same {
+				okk, why = false, "the pattern is asked of another connection data than the one the machine is given"
+			}
+		}
+		c.decide(okk, rule, key, instrPos(st), "HandshakePattern: cfg.ConnData.HandshakePattern()", "a handshake machine is configured with a pattern that is not the one its connection data prescribes ("+why+"): a paired side can fall back to the passphrase-only pattern, or the two sides run different patterns")
+	}
+	c.decide(n >= 4, rule, "machine pattern sites", token.NoPos, fmt.Sprintf("%d configuration sites", n), fmt.Sprintf("only %d sites configure BrontideMachineConfig.HandshakePattern (4 expected: grpc client/server, tcp dial/listen)", n))
+	// ConnData.HandshakePattern: XX exactly while no remote key is stored, KK afterwards
+	isRK := func(v ssa.Value) bool { return isLoadOfField(v, fRK) }
+	globalName := func(v ssa.Value) string {
+		u, ok := unwrapLoadAlloc(v).(*ssa.UnOp)
+		if !ok || u.Op != token.MUL {
+			return ""
+		}
+		g, ok := u.X.(*ssa.Global)
+		if !ok {
+			return ""
+		}
+		return g.Name()
+	}
+	type rv struct {
+		v ssa.Value
+		b *ssa.BasicBlock
+	}
+	var rvs []rv
+	allInstrs(hp, func(in ssa.Instruction) {
+		ret, ok := in.(*ssa.Return)
+		if !ok || ret.Block().Comment == "recover" {
+			return
+		}
+		if u, ok := ret.Results[0].(*ssa.UnOp); ok && u.Op == token.MUL {
+			if al, ok := u.X.(*ssa.Alloc); ok {
+				for _, ref := range *al.Referrers() {
+					if st, ok := ref.(*ssa.Store); ok && st.Addr == ssa.Value(al) && (st.Block() == ret.Block() || st.Block().Dominates(ret.Block())) {
+						rvs = append(rvs, rv{st.Val, st.Block()})
+					}
+				}
+				return
+			}
+		}
+		rvs = append(rvs, rv{ret.Results[0], ret.Block()})
+	})
+	nXX, nKK, bad := 0, 0, ""
+	for _, r := range rvs {
+		rel := ""
+		for _, f := range factsAt(r.b) {
+			if x := factRel(f, isRK, isNilConst); x != "" {
+				rel = x
+			}
+		}
+		switch g := globalName(r.v); {
+		case g == "XXPattern" && rel == "==":
+			nXX++
+		case g == "KKPattern" && rel == "!=":
+			nKK++
+		default:
+			bad = fmt.Sprintf("returns %s under remoteKey %s nil", w.canonFB(r.v), rel)
+		}
+	}
+	c.decide(bad == "" && nXX >= 1 && nKK >= 1, rule, "ConnData.HandshakePattern|XX without a remote key, KK with one", hp.Pos(), "XXPattern under remoteKey == nil, KKPattern under remoteKey != nil",
+		"ConnData.HandshakePattern does not return XX exactly while no remote key is stored and KK afterwards ("+bad+")")
 }
